@@ -32,7 +32,7 @@ def header_sweep(tier, rng):
 
 
 def streams(tier, rng):
-    n = 400 if tier == "quick" else 20000
+    n = 1200 if tier == "quick" else 20000
     for _ in range(n):
         k = rng.randrange(2, 7)
         frs = []
